@@ -3,7 +3,7 @@ what amoco does).
 
   python -m harness.dec_repro <isa> <mode> <hex> decode|render|toks|pickle|apply [syntax]
   python -m harness.dec_repro <isa> <mode> family <hex> <hex> ...     each input on a clean object
-  python -m harness.dec_repro <isa> <mode> history <hex> <hex> ...    all inputs on ONE object, vs clean object
+  python -m harness.dec_repro <isa> <mode> history <hex> <hex> ...    all inputs on ONE object, vs each input in a fresh process
 (isa/mode names: harness/dec_common.py ISAS; run with PYTHONPATH=/repo:/verif)
 """
 import pickle
@@ -25,24 +25,36 @@ def main(argv):
     D.quiet()
     if argv[2] in ("family", "history"):
         import copy
-        one = copy.copy(isa.dis)
-        for hx in argv[3:]:
-            b = bytes.fromhex(hx)
-            clean = copy.copy(isa.dis)
+        import os
+
+        def outcome(dis, b):
             try:
-                c = show(isa, isa.call(b, clean))
+                return show(isa, isa.call(b, dis))
             except Exception as ex:
-                c = "raised %s at %s" % D.crash_key(ex)[:2]
+                return "raised %s at %s" % D.crash_key(ex)[:2]
+
+        # fresh-process outcomes first (this process has not decoded anything yet): one forked child per input
+        fresh = []
+        for hx in argv[3:]:
+            r, w = os.pipe()
+            pid = os.fork()
+            if pid == 0:
+                os.close(r)
+                os.write(w, outcome(copy.copy(isa.dis), bytes.fromhex(hx)).encode())
+                os._exit(0)
+            os.close(w)
+            fresh.append(os.read(r, 1 << 16).decode())
+            os.close(r)
+            os.waitpid(pid, 0)
+        one = copy.copy(isa.dis)
+        for hx, c in zip(argv[3:], fresh):
             if argv[2] == "family":
                 print("d(%s) = %s" % (hx, c))
                 continue
-            try:
-                o = show(isa, isa.call(b, one))
-            except Exception as ex:
-                o = "raised %s at %s" % D.crash_key(ex)[:2]
+            o = outcome(one, bytes.fromhex(hx))
             print("d(%s) on the one object = %s%s" % (hx, o, "   [__i left set]" if isa.pending(one) is not None else ""))
             if o != c:
-                print("      on a clean object   = %s    <-- differs" % c)
+                print("      in a fresh process  = %s    <-- differs" % c)
         return 0
     b = bytes.fromhex(argv[2])
     stage = argv[3] if len(argv) > 3 else "decode"
